@@ -1,0 +1,10 @@
+//go:build verif
+
+package fluentdforward
+
+// SetChunkLimitsForVerif sets the chunk limits used by chunk makers created afterwards and returns the previous values
+func SetChunkLimitsForVerif(maxRecords, maxSizeBytes int) (int, int) {
+	oldRecords, oldBytes := chunkMaxRecords, chunkMaxSizeBytes
+	chunkMaxRecords, chunkMaxSizeBytes = maxRecords, maxSizeBytes
+	return oldRecords, oldBytes
+}
